@@ -247,6 +247,7 @@ class ElectrumV2Standard(ElectrumV2Base):
             Bip32KeyError: If the derivation results in an invalid key
             Bip32PathError: If the path indexes are not valid
         """
+        change_idx, addr_idx = int(change_idx), int(addr_idx)
         return self.m_bip32_obj.DerivePath(f"m/{change_idx}/{addr_idx}")
 
 
@@ -348,4 +349,5 @@ class ElectrumV2Segwit(ElectrumV2Base):
             Bip32KeyError: If the derivation results in an invalid key
             Bip32PathError: If the path indexes are not valid
         """
+        change_idx, addr_idx = int(change_idx), int(addr_idx)
         return self.m_bip32_acc.DerivePath(f"{change_idx}/{addr_idx}")
